@@ -1,11 +1,11 @@
 """C03 — every well-formed message of a supported type is accepted and reproduced exactly."""
 import json, os, re
 from common import *
-import mtgen, engine, specgen
+import mtgen, engine, specgen, spec2v
 
 PROP = "C03"
 COQ_TARGETS = ["Props/C03.vo"]
-TRANSLATOR = ["layouts"]
+TRANSLATOR = ["layouts", "families"]
 
 TRUSTED = [
     "Coq 8.16.1 kernel; no axioms",
@@ -28,13 +28,54 @@ def count_keys(j, key):
     return n
 
 
+RESTRICTED = {k: v for k, v in json.load(open(os.path.join(ROOT, "spec", "mt_layouts_restricted.json"))).items() if k.startswith("MT")}
+
+DIAG_CODES = {1: "analysis fuel", 2: "a mandatory field is not the next field", 3: "the duplicate check may fire", 4: "a parser's verdict is not known to be positive",
+              6: "a fail statement is reachable", 7: "content may remain at the completeness check", 8: "loop state not inductive within the unrolling budget",
+              9: "statement outside the analysed fragment"}
+
+
+def diag_inclusion(ctx):
+    """where does the abstract interpreter give up, per type not listed as open?  (Engine/AbsInstance.vo must exist)"""
+    if not os.path.exists(os.path.join(COQ, "Engine", "AbsInstance.vo")):
+        return {}
+    v = ["From Coq Require Import Strings.String.", "From SwiftMT Require Import Base.Bytes Engine.Regex Engine.Abs Engine.AbsInstance gen.Specs.",
+         "Local Open Scope string_scope.", "Local Open Scope list_scope.",
+         "Eval vm_compute in map (fun p => (fst p, match why_type (fst p) with Ok o => (0, heads (a_cur (o_next o)) ++ heads (a_cur (o_break o))) | Fail c x => (c, x) end)) "
+         "(filter (fun p => negb (mem (fst p) inclusion_open)) specs)."]
+    path = os.path.join(ctx.work, "incl_diag.v")
+    open(path, "w").write("\n".join(v) + "\n")
+    rc, out, _ = sh("coqc -noglob -Q %s SwiftMT %s" % (COQ, path), timeout=600)
+    flat = out.replace("\n", " ")
+    def dec(m):
+        try:
+            return '"' + "".join(chr(int(x.replace("%N", "").strip())) for x in m.group(1).split(";")) + '"'
+        except Exception:
+            return m.group(0)
+    flat = re.sub(r"\[((?:\s*\d+%N\s*;?)+)\]", dec, flat)
+    res = {}
+    for m in re.finditer(r'\("(MT\d{3})",\s*\((\d+),\s*\[(.*?)\]\)\)', flat):
+        code = int(m.group(2))
+        if code or m.group(3).strip():
+            res[m.group(1)] = (code, re.sub(r"\s+", " ", m.group(3)).strip())
+    return res
+
+
 def run(ctx):
     ctx.rule = ("messages generated from the independent layout specification: optional fields in/out (p = 0.2/0.5/0.9), every option "
                 "letter, 0..2 (thorough 0..3) repetitions of repetitive fields and sequences, each capped sequence at its maximum; "
                 "contents = hand-written canonical examples; distinct = distinct (type, tag sequence)")
+    spec2v.write_v(os.path.join(COQ, "gen"))      # the specification as tag expressions (gen/Specs.v)
     standard_front(ctx, __import__("c03"))
     rng = ctx.rng
     known, _ = load_known(PROP)
+    # the inclusion theorem no longer checks: say where the analysis gives up and look much harder at those types
+    suspects = {}
+    if any("gen_inclusion_ok" in b or "AbsResult" in b for b in ctx.broken):
+        suspects = diag_inclusion(ctx)
+        for T, (code, where) in sorted(suspects.items()):
+            ctx.broken.append("inclusion analysis: %s: %s [%s]" % (T, DIAG_CODES.get(code, "outcome other than acceptance possible"), where))
+        ctx.stats["inclusion_suspects"] = {T: [c, w] for T, (c, w) in suspects.items()}
     n = 150 if ctx.tier == "thorough" else 30
     reps = (0, 1, 2, 3) if ctx.tier == "thorough" else (0, 1, 2)
     # "the library's own canonical spelling": every example is passed once through the field's own
@@ -57,12 +98,19 @@ def run(ctx):
     msgs, meta = [], []
     for c in mtgen.SUPPORTED:
         T = "MT" + c
-        for k in range(n):
+        for k in range(n * (25 if T in suspects else 1)):
             toks, trace = specgen.generate(T, rng, rng.choice([0.2, 0.5, 0.9]), reps)
             toks = [(t, canon.get((c, t, cn), cn)) for t, cn in toks]
             msgs.append((c, "\n" + mtgen.render(toks) + "\n")); meta.append(("spec", toks))
         toks = [(t, canon.get((c, t, cn), cn)) for t, cn in specgen.max_repeat(T, rng)]
         msgs.append((c, "\n" + mtgen.render(toks) + "\n")); meta.append(("spec-max", toks))
+        # the open types: words of the restricted specification (the part the library is proved to accept)
+        if T in RESTRICTED:
+            for k in range(n):
+                toks, trace = [], []
+                specgen.gen_items(RESTRICTED[T], rng, rng.choice([0.2, 0.5, 0.9]), reps, toks, trace)
+                toks = [(t, canon.get((c, t, cn), cn)) for t, cn in toks]
+                msgs.append((c, "\n" + mtgen.render(toks) + "\n")); meta.append(("spec-restricted", toks))
     for cdir in (os.path.join(ROOT, "corpus", PROP), os.path.join(ROOT, "corpus", PROP, "fixed")):
         for f in sorted(os.listdir(cdir)) if os.path.isdir(cdir) else []:
             if f.endswith(".b4"):
@@ -126,6 +174,50 @@ def run(ctx):
                 ctx.disagreements.append({"type": "MT" + c, "model": mclass, "library": lclass, "replay": replay})
         if len(ctx.samples) < 4:
             ctx.samples.append({"type": "MT" + c, "tags": " ".join(tags), "library": lclass})
+    # ---- the tie of the inclusion theorem (Props/C03.v, C03_specification_is_accepted):
+    # (1) the Coq rendering of spec/mt_layouts.json and the generator read the same language: every generated message is
+    #     a word of the type's expression (decided by the extracted matcher, proved equal to the language);
+    # (2) how many tokens satisfy the theorem's hypothesis on contents (every plain parser the layout may apply accepts,
+    #     a family accepts exactly its own letters), measured on the real parsers' answers
+    spec_idx = [i for i, (kind, _) in enumerate(meta) if kind.startswith("spec")]
+    mcases = ["specmatch\t%s\t%s" % (hexs("MT" + msgs[i][0]), ";".join(hexs(t) for t, _ in meta[i][1])) for i in spec_idx]
+    mres = run_model(ctx, mcases, "c03.member") if mcases else []
+    non_members = [(i, l) for i, l in zip(spec_idx, mres) if not (l or "").startswith("MEMBER\t1")]
+    if non_members:
+        i, l = non_members[0]
+        ctx.broken.append("correspondence: %d generated specification message(s) are not words of gen/Specs.v (first: MT%s %s -> %s)" % (len(non_members), msgs[i][0], " ".join(t for t, _ in meta[i][1]), l))
+    fam = json.load(open(os.path.join(COQ, "gen", "families.json")))
+    alias = dict(fam.get("_aliases", []))
+    def expected(ty, lk):
+        if lk == "_":
+            return True
+        f = fam.get(alias.get(ty, ty))
+        if not f or not f.get("has_pwv"):
+            return None
+        letter = lk[1:] or None
+        return any(a[0] == letter for a in f["arms"])
+    good = bad = 0
+    bad_samples = {}
+    proved_accepted = proved_total = 0
+    for i, l in zip(spec_idx, mres):
+        r = res[i]
+        allgood = True
+        for (ty, lk, cn) in r["need"]:
+            if (ty, lk, cn) not in table:
+                continue
+            e = expected(ty, lk)
+            if e is None or bool(table[(ty, lk, cn)].get("ok")) == e:
+                good += 1
+            else:
+                bad += 1; allgood = False
+                bad_samples.setdefault("%s %s" % (ty, lk), cn[:40])
+        if ((l or "").endswith("proved") or meta[i][0] == "spec-restricted") and allgood:
+            proved_total += 1
+            if r["lib"].get("ok"):
+                proved_accepted += 1
+    ctx.stats.update({"spec_messages_checked_as_words": len(mcases), "parser_answers_matching_hypothesis": good,
+                      "parser_answers_against_hypothesis": bad, "against_hypothesis_samples": dict(list(bad_samples.items())[:8]),
+                      "messages_in_theorem_scope": proved_total, "of_which_library_accepts": proved_accepted})
     if ctx.disagreements:
         ctx.broken.append("correspondence: stream spec: %d disagreement(s), first: %s" % (len(ctx.disagreements), json.dumps({k: v for k, v in ctx.disagreements[0].items() if k != "replay"})[:300]))
     ctx.stats.update({"generated": len(msgs), "accepted": acc, "rejections_not_listed": {"%s %s" % k: v for k, v in rej_by.items()}})
